@@ -569,6 +569,11 @@ func (f *frame) unop(x *ssa.UnOp, st *State) bool {
 		} else {
 			f.regs[x] = rv
 		}
+		// the value received is named resultof("recv", k, 1) in the clauses that follow (k-th receive of the function)
+		if f.callResults == nil {
+			f.callResults = map[string][]Val{}
+		}
+		f.callResults["recv"] = append(f.callResults["recv"], rv)
 		f.recvHook(x, ch, rv, st)
 		f.joinAtRecv(ch, rv, st)
 	default:
